@@ -141,7 +141,7 @@ def doubling_contract():
         return cl
 
     def instances(tier):
-        fam = [(1, 2, 1, 1), (1, 2, 1, 2), (2, 2, 1, 2)] + ([(1, 2, 1, 3), (1, 3, 1, 2)] if tier == "thorough" else [])
+        fam = [(1, 2, 1, 1), (1, 2, 1, 2), (2, 2, 1, 1)] + ([(2, 2, 1, 2), (1, 3, 1, 2)] if tier == "thorough" else [])
         out = []
         for m, D, order, num in fam:
             def make(rng, m=m, D=D, order=order, num=num):
